@@ -22,6 +22,13 @@ type Server struct {
 	LogTx            bool
 	// HandshakeTimeout bounds the wait for the 256 handshake bytes (default 30 s).
 	HandshakeTimeout time.Duration
+	// Piggyback, when set, is asked once per session for payloads to send behind the handshake
+	// confirmation in the same write (nil = just the confirmation).
+	Piggyback func() [][]byte
+
+	// handshakeDelay (nanoseconds): the TCP connection is accepted at once, the handshake is
+	// answered only after this long (SetHandshakeDelay).
+	handshakeDelay atomic.Int64
 
 	addr string
 	mu   sync.Mutex
@@ -33,7 +40,9 @@ type Server struct {
 	peers      map[*Peer]struct{}
 	Accepted   atomic.Int64 // sessions established
 	TurnedAway atomic.Int64 // TCP connections accepted and closed while refusing
-	wg         sync.WaitGroup
+	// SlowHandshakes counts the connections whose handshake answer was held back
+	SlowHandshakes atomic.Int64
+	wg             sync.WaitGroup
 }
 
 // Listen starts a server on addr ("127.0.0.1:0" picks a port; the port is
@@ -77,12 +86,28 @@ func (s *Server) acceptLoop(ln net.Listener) {
 			if hto <= 0 {
 				hto = 30 * time.Second
 			}
+			if d := time.Duration(s.handshakeDelay.Load()); d > 0 {
+				s.SlowHandshakes.Add(1)
+				time.Sleep(d)
+			}
 			c.SetReadDeadline(time.Now().Add(hto))
 			var n [32]byte
 			if s.Nonce != nil {
 				n = s.Nonce()
 			}
-			p, err := s.ID.Accept(c, n, s.LogTx)
+			var extra [][]byte
+			var extraNonces [][32]byte
+			if s.Piggyback != nil {
+				extra = s.Piggyback()
+				for range extra {
+					var en [32]byte
+					if s.Nonce != nil {
+						en = s.Nonce()
+					}
+					extraNonces = append(extraNonces, en)
+				}
+			}
+			p, err := s.ID.AcceptCoalesced(c, n, s.LogTx, extraNonces, extra)
 			if err != nil {
 				c.Close()
 				if s.OnHandshakeError != nil {
@@ -110,6 +135,10 @@ func (s *Server) acceptLoop(ln net.Listener) {
 
 // TurnAway(true): new TCP connections are accepted and closed immediately.
 func (s *Server) TurnAway(on bool) { s.turnAway.Store(on) }
+
+// SetHandshakeDelay: connections accepted from now on get their handshake answered only after d
+// (0 = at once again; connections already waiting keep their delay).
+func (s *Server) SetHandshakeDelay(d time.Duration) { s.handshakeDelay.Store(int64(d)) }
 
 // StopListening closes the listening socket (connection refused for clients).
 func (s *Server) StopListening() {
